@@ -10,3 +10,9 @@ CHECKS['C04'] = dict(
     technique='bounded-exhaustive construction LTS (words over an axially symmetric surface alphabet x every stop position) x full configuration menu, every paraxial query compared with an independent signed-index y-nu / ABCD reference model',
     text='Every word of length <=2 over 10 symmetric symbols (+ length 3 over 6; thorough: <=3 and 4) with the stop on every surface, crossed with 14 valid (object distance, aperture kind, field kind) configurations, plus the 24 samples: f1,f2,F1,F2,P1,P2,N1,N2,EPL,EPD,XPL,XPD,FNO,magnification, marginal and chief ray arrays, invariant() against the reference; Lagrange invariant constant over the returned arrays; linearity of _trace_generic on a basis. Complete within these bounds.',
     note='Trusted: vmc/ref/abcd.py (signed indices, f2=-1/u_k, F1 from first vertex, F2/XPL from image), sign convention of the paraxial chief ray for height fields (object point at -field). Exactly afocal / telecentric-pupil states are skipped and counted.')
+
+CHECKS['C03'] = dict(
+    design_ref='DESIGN.md section 3, C03',
+    technique='bounded-exhaustive construction LTS x the full configuration product (aperture x field type x object distance x telecentric, valid and invalid), launch-state oracle from the reference entrance pupil; finite enumeration of distributions x counts',
+    text='Every word of length <=2 (thorough <=3) over 6 symmetric symbols with the stop on every surface, crossed with all 36 configurations and two field lists (one whose largest field is negative): for 6 normalised fields x 25 pupil points the generated origin/direction/intensity/path/wavelength is compared with the definition (start at the field point or field angle, aimed at (Px,Py) EPD/2 on the reference entrance pupil plane, telecentric chief ray parallel with rim sine = NA) and with the object-surface record of a trace; the 14 unrepresentable combinations must raise ValueError from generate_rays and from trace. All 11 named distributions x counts 1..7 against closed-form counts and the unit disk; vignetting menu {0,0.2,0.5}^2: pointwise shrink of the aim points.',
+    note='Trusted: vmc/ref/abcd.py pupils; sign convention positive field angle = +y travelling rays. Fields along y only; object space air.')
